@@ -695,17 +695,32 @@ func c02struct(c *an.Ctx) {
 		okOrder, sawIndex := true, false
 		x := p.NewExplorer(f, an.Hooks{
 			PreAssign: func(x *an.Explorer, lhs, rhs ast.Expr, stmt ast.Node, st *an.State) {
-				if p.FieldKey(info, lhs) == "lexer.pos" && rhs != nil && strings.Contains(an.Str(rhs), "len(l.leftComment)") {
+				if p.FieldKey(info, lhs) == "lexer.pos" && rhs != nil && strings.Contains(an.Norm(f, rhs), "len($p0.leftComment)") {
 					if as, ok := stmt.(*ast.AssignStmt); ok && as.Tok == token.ADD_ASSIGN {
 						st.Set("skipped", "1")
 						skipped = true
 					}
 				}
+				// a local holding the rest of the input: remember whether it was taken after the opening marker was skipped
+				if id, ok := an.Unparen(lhs).(*ast.Ident); ok && rhs != nil {
+					if _, isSlice := an.Unparen(rhs).(*ast.SliceExpr); isSlice && strings.Contains(an.Norm(f, rhs), "$p0.input[$p0.pos:") {
+						when := "before"
+						if st.Get("skipped") != "" {
+							when = "after"
+						}
+						st.Set("rest:"+id.Name, when)
+					}
+				}
 			},
 			Call: func(x *an.Explorer, call *ast.CallExpr, st *an.State) {
-				if an.CalleeName(info, call) == "strings.Index" && strings.Contains(an.Str(call.Args[1]), "rightComment") {
+				if an.CalleeName(info, call) == "strings.Index" && len(call.Args) == 2 && strings.Contains(an.Norm(f, call.Args[1]), "$p0.rightComment") {
 					sawIndex = true
-					if st.Get("skipped") == "" || !strings.Contains(an.Str(call.Args[0]), "l.input[l.pos:]") {
+					hay := an.Unparen(call.Args[0])
+					fromPos := strings.Contains(an.Norm(f, hay), "$p0.input[$p0.pos:")
+					if id, isId := hay.(*ast.Ident); isId {
+						fromPos = st.Get("rest:"+id.Name) == "after"
+					}
+					if st.Get("skipped") == "" || !fromPos {
 						okOrder = false
 					}
 				}
@@ -715,33 +730,79 @@ func c02struct(c *an.Ctx) {
 		c.States += x.Visited
 		c.Check(skipped && sawIndex && okOrder, "C02.struct", "lexComment/close-after-open", f.Pos(), "the closing comment marker is searched after the opening marker",
 			"lexComment searches for the closing marker without first skipping the opening one: with overlapping markers (`{*}`) an unterminated comment is silently accepted")
-		// not found → error
-		okErr := false
+		// not found → error: on every path where the search result is negative the state function returned is
+		// the lexer's error (no path goes on lexing with a negative index)
+		idxVars := map[types.Object]bool{}
 		an.InspectOwn(f, func(n ast.Node) bool {
-			if is, ok := n.(*ast.IfStmt); ok && strings.ReplaceAll(an.Str(is.Cond), " ", "") == "i<0" && len(is.Body.List) == 1 {
-				if ret, ok := is.Body.List[0].(*ast.ReturnStmt); ok && strings.Contains(an.Str(ret.Results[0]), "l.errorf(") {
-					okErr = true
+			if as, ok := n.(*ast.AssignStmt); ok && len(as.Lhs) == 1 && len(as.Rhs) == 1 {
+				if call, ok := an.Unparen(as.Rhs[0]).(*ast.CallExpr); ok && an.CalleeName(info, call) == "strings.Index" {
+					if id, ok := as.Lhs[0].(*ast.Ident); ok {
+						idxVars[an.ObjOf(info, id)] = true
+					}
 				}
 			}
 			return true
 		})
-		c.Check(okErr, "C02.struct", "lexComment/unclosed", f.Pos(), "an unclosed comment is a lexing error", "lexComment does not report a comment whose closing marker is missing")
+		xe := p.NewExplorer(f, an.Hooks{Branch: func(x *an.Explorer, cond ast.Expr, val bool, st *an.State) {
+			b, ok := an.Unparen(cond).(*ast.BinaryExpr)
+			if !ok {
+				return
+			}
+			id, isId := an.Unparen(b.X).(*ast.Ident)
+			if !isId || !idxVars[an.ObjOf(info, id)] {
+				return
+			}
+			rhs := an.Str(b.Y)
+			neg := (b.Op == token.LSS && rhs == "0") || (b.Op == token.EQL && rhs == "-1") || (b.Op == token.LEQ && rhs == "-1")
+			nonneg := (b.Op == token.GEQ && rhs == "0") || (b.Op == token.NEQ && rhs == "-1") || (b.Op == token.GTR && rhs == "-1")
+			if (neg && val) || (nonneg && !val) {
+				st.Set("missing", "1")
+			} else if neg || nonneg {
+				st.Set("found", "1")
+			}
+		}})
+		xe.Run(nil)
+		c.States += xe.Visited
+		okErr, sawMissing := len(idxVars) > 0, false
+		for _, ex := range xe.Exits {
+			if ex.Kind != an.ExitReturn || ex.Ret == nil || len(ex.Ret.Results) != 1 {
+				continue
+			}
+			isErr := an.CalleeName(info, callOf(ex.Ret.Results[0])) == "(*jet.lexer).errorf"
+			switch {
+			case ex.State.Get("missing") != "":
+				sawMissing = true
+				if !isErr {
+					okErr = false
+				}
+			case ex.State.Get("found") == "" && !isErr:
+				okErr = false // returned without ever testing the search result
+			}
+		}
+		c.Check(okErr && sawMissing, "C02.struct", "lexComment/unclosed", f.Pos(), "an unclosed comment is a lexing error", "lexComment does not report a comment whose closing marker is missing")
 	}
 	// unexpected(): the extends/import arm
 	if f := c.Fn("C02.struct", "(*Template).unexpected"); f != nil {
-		ok := false
+		// both token kinds are singled out by some test of the function (a case list or a comparison)
+		named := map[string]bool{}
 		an.InspectOwn(f, func(n ast.Node) bool {
-			if cc, isCC := n.(*ast.CaseClause); isCC {
-				s := ""
-				for _, e := range cc.List {
-					s += an.Str(e) + ";"
+			var exprs []ast.Expr
+			switch v := n.(type) {
+			case *ast.CaseClause:
+				exprs = v.List
+			case *ast.BinaryExpr:
+				if v.Op == token.EQL || v.Op == token.NEQ {
+					exprs = []ast.Expr{v.X, v.Y}
 				}
-				if strings.Contains(s, "itemImport") && strings.Contains(s, "itemExtends") {
-					ok = true
+			}
+			for _, e := range exprs {
+				if id, isId := an.Unparen(e).(*ast.Ident); isId && (id.Name == "itemImport" || id.Name == "itemExtends") {
+					named[id.Name] = true
 				}
 			}
 			return true
 		})
+		ok := named["itemImport"] && named["itemExtends"]
 		c.Check(ok && p.NoReturn(f), "C02.struct", "(*Template).unexpected", f.Pos(), "unexpected() never returns and names late extends/import", "Template.unexpected can return, or no longer reports late extends/import clauses")
 	}
 	// action(): no arm accepts extends/import
@@ -1008,33 +1069,73 @@ func c02index(c *an.Ctx) {
 				return
 			}
 			pk := an.PlainKey(key)
-			lenK := "len(" + pk + ")"
-			guarded := false
-			for fk, fv := range st.Facts {
-				fp := an.PlainKey(fk)
-				switch {
-				case strings.HasPrefix(fp, lenK+" < ") && !fv: // len(x) >= N
-					if r := strings.TrimPrefix(fp, lenK+" < "); numRe.MatchString(r) {
-						if N, _ := strconv.ParseInt(r, 10, 64); N >= s.k+1 {
-							guarded = true
-						}
+			lenKs := []string{"len(" + pk + ")"}
+			// a local that holds len(operand), taken after the operand's last change before this index
+			an.InspectOwn(f, func(m ast.Node) bool {
+				as, ok := m.(*ast.AssignStmt)
+				if !ok || len(as.Lhs) != len(as.Rhs) || as.End() > s.ix.Pos() {
+					return true
+				}
+				for i, r := range as.Rhs {
+					call, ok := an.Unparen(r).(*ast.CallExpr)
+					if !ok || !an.IsCallTo(info, call, "builtin.len") || len(call.Args) != 1 {
+						continue
 					}
-				case strings.HasSuffix(fp, " < "+lenK) && fv: // N < len(x)
-					if l := strings.TrimSuffix(fp, " < "+lenK); numRe.MatchString(l) {
-						if N, _ := strconv.ParseInt(l, 10, 64); N >= s.k {
-							guarded = true
-						}
+					ak, ok := x.Key(call.Args[0])
+					id, isId := as.Lhs[i].(*ast.Ident)
+					if !ok || !isId || an.PlainKey(ak) != pk {
+						continue
 					}
-				case (fp == lenK+" == 0" || fp == "0 == "+lenK || fp == pk+` == ""` || fp == `"" == `+pk) && !fv:
-					if s.k == 0 {
-						guarded = true
+					// the operand must not be assigned between this statement and the index expression
+					changed := false
+					opnd, _ := an.Unparen(e).(*ast.Ident)
+					if opnd == nil {
+						changed = true // only plain variables are tracked this way
+					} else {
+						oo := an.ObjOf(info, opnd)
+						an.InspectOwn(f, func(q ast.Node) bool {
+							an.Assigns(q, func(lhs, _ ast.Expr, _ token.Token) {
+								if lid, ok := an.Unparen(lhs).(*ast.Ident); ok && an.ObjOf(info, lid) == oo && q.Pos() > as.Pos() && q.Pos() < s.ix.Pos() {
+									changed = true
+								}
+							})
+							return true
+						})
+					}
+					if !changed && len(an.LocalDefs(f, an.ObjOf(info, id))) == 1 {
+						lenKs = append(lenKs, id.Name)
 					}
 				}
-			}
-			for rk, rv := range st.Regs {
-				if an.PlainKey(rk) == "eq:"+lenK && numRe.MatchString(rv) {
-					if N, _ := strconv.ParseInt(rv, 10, 64); N >= s.k+1 {
-						guarded = true
+				return true
+			})
+			guarded := false
+			for _, lenK := range lenKs {
+				for fk, fv := range st.Facts {
+					fp := an.PlainKey(fk)
+					switch {
+					case strings.HasPrefix(fp, lenK+" < ") && !fv: // len(x) >= N
+						if r := strings.TrimPrefix(fp, lenK+" < "); numRe.MatchString(r) {
+							if N, _ := strconv.ParseInt(r, 10, 64); N >= s.k+1 {
+								guarded = true
+							}
+						}
+					case strings.HasSuffix(fp, " < "+lenK) && fv: // N < len(x)
+						if l := strings.TrimSuffix(fp, " < "+lenK); numRe.MatchString(l) {
+							if N, _ := strconv.ParseInt(l, 10, 64); N >= s.k {
+								guarded = true
+							}
+						}
+					case (fp == lenK+" == 0" || fp == "0 == "+lenK || fp == pk+` == ""` || fp == `"" == `+pk) && !fv:
+						if s.k == 0 {
+							guarded = true
+						}
+					}
+				}
+				for rk, rv := range st.Regs {
+					if an.PlainKey(rk) == "eq:"+lenK && numRe.MatchString(rv) {
+						if N, _ := strconv.ParseInt(rv, 10, 64); N >= s.k+1 {
+							guarded = true
+						}
 					}
 				}
 			}
